@@ -247,7 +247,7 @@ ADDENDA = {
     'C06': 'A per-logic finite sub-domain runs every quantifier shape on a hand-made branch where a constant already occurs, in modal logics also at another world than the shape.',
     'C07': 'The evaluator stream takes operands of every kind, including letters and predications the model never hears about (default value) and one sentence on both sides of a binary operator, and the law "a logic that does not declare Assertion native has a transparent assertion" is checked against the package\'s own declaration.',
     'C08': 'Target models have up to 5 worlds and, in a quarter of the cases, up to 6 constants; sparse access chains through up to 8 worlds; world names spread injectively and non-monotonically over 0..40 in a third of the modal cases; a bystander model with rotated values is built before anything is evaluated.',
-    'C01': 'In K, D, T, S4 and S5 a quarter of the cases come from the finite sub-domain of literals over two constants (identity both ways round, a predication, negations) under 0-2 modal operators, so that literals of different worlds meet on one branch.',
+    'C01': 'In K, D, T, S4 and S5 a third of the cases come from the finite sub-domain of literals over two constants (identity both ways round, in half of them also a predication, negations) under 0-2 modal operators, so that literals of different worlds meet on one branch.',
     'C10': 'Reflexivity is also checked with the conclusion among several identical premises. A sixth of the cases come from the witness sub-domain (one literal per constant for 2-3 constants in a drawn order of appearance, an existential premise, its body about one of the constants as conclusion), where only names and their order differ between variants.',
     'C13': 'Two parsers built over one store object are interleaved on strings with clashing arities; every result must be the same whether the store starts empty or with a declaration of a symbol that occurs nowhere (irrelevant-declaration invariance).',
     'C14': 'Subscripts include values that CPython hashes like small ones (n + 2**61 - 1), so that distinct items with equal hashes meet in the construction cache.',
